@@ -21,7 +21,7 @@ SHUTDOWN_FLAG = "status"
 L5_EXCEPTIONS = {
     ("store_completed", "status", "queue_cond"):
         "a failure status only has to stop idle workers from taking new items; they wait on queue_cond until "
-        "destroy() sets status and broadcasts queue_cond",
+        "destroy() broadcasts queue_cond, which rule L10 proves it does on every path before joining",
 }
 
 H, NH, MIX = "held", "not-held", "mixed"
@@ -288,7 +288,7 @@ def run(chk):
                     chk.ok("L3", "%s:return" % f.name, r, "mutex not held at return")
 
     # L1 / L2
-    join_ok_blocks = post_join_blocks(prog, unit)
+    jp = join_points(prog, unit)
     pre_create = pre_create_blocks(ctor)
     for f in lf.fns:
         for i in f.insts():
@@ -303,7 +303,7 @@ def run(chk):
                 inst = "%s:%s:%s" % (f.name, fld, i.op)
                 if s == H:
                     chk.ok("L1", inst, i, "mutex held")
-                elif i.bb in join_ok_blocks.get(f, ()):
+                elif after_join(f, jp, i):
                     chk.ok("L1", inst, i, "after every worker was joined: no other thread exists")
                 elif f is ctor and i.bb in pre_create:
                     chk.ok("L1", inst, i, "before the first pthread_create")
@@ -402,7 +402,7 @@ def run(chk):
                 inst = "%s:%s->%s" % (f.name, fld, cv)
                 if f is ctor and i.bb in pre_create:
                     continue
-                if f in join_ok_blocks and i.bb in join_ok_blocks[f]:
+                if after_join(f, jp, i):
                     continue
                 if f is wf:
                     chk.ok("L5", inst, i, "store on the waiter's own side (same function as the wait)")
@@ -418,6 +418,11 @@ def run(chk):
                     chk.violation("L5", inst, i, "store to '%s' (part of the predicate of the wait on %s in %s) is not "
                                   "followed by a broadcast/signal on %s before the mutex is released: lost wake-up"
                                   % (fld, cv, wf.name, cv))
+
+    # L10 shutdown wake-up
+    worker_waits = {cv for (w, cv, pf, body) in wait_info if w.fn in worker_reach}
+    destroy_fns = [f for f in prog.slot_impls(("struct.thread_pool_t", "destroy")) if f.unit is unit]
+    shutdown_wakes(chk, lf, unit, prog, destroy_fns, worker_waits)
 
     # L7 ticket discipline
     nt_sites = []
@@ -486,6 +491,7 @@ def run(chk):
     chk.floor("L5", 8)
     chk.floor("L6", 2)
     chk.floor("L7", 2)
+    chk.floor("L10", 1)
     controls(chk)
 
 
@@ -536,32 +542,107 @@ def _callee_always_signals(lf, unit, g, cv):
     return all(any(g.inst_dominates(s, r) for s in sig) for r in g.rets())
 
 
-def post_join_blocks(prog, unit):
-    """blocks executed only after a loop joined every worker"""
+def join_points(prog, unit):
+    """instructions after which every worker has been joined: the first instruction after a loop that calls
+    pthread_join for all workers (exit condition bound by num_workers), or a call to a helper containing such a
+    loop bound by a parameter that the caller binds to num_workers.  {function: [instruction]}"""
     out = {}
-    for f in unit.functions.values():
-        if f.decl:
-            continue
-        f.build()
+    helpers = {}     # fn -> param index bounding its join loop
+    fns = [f.build() for f in unit.functions.values() if not f.decl]
+
+    def loop_info(f):
+        res = []
         for head, body in f.loops:
             joins = [c for b in body for c in b.insts if c.op == "call" and norm_callee(c.callee) == "pthread_join"]
             if not joins:
                 continue
-            # the single exit must compare the induction variable with num_workers
             exits = [(b, s) for b in body for s in b.succs if s not in body]
             if len(exits) != 1:
                 continue
             b, s = exits[0]
             cond = b.term.ops[0]
-            dep = False
-            for v in backward_slice(cond):
-                if v.is_inst and v.op == "load" and pool_field(v) == "num_workers":
-                    dep = True
-            if not dep:
-                continue
-            blocks = {x for x in f.blocks if x not in body and f.dominates(s, x)}
-            out.setdefault(f, set()).update(blocks)
+            sl = backward_slice(cond)
+            dep_field = any(v.is_inst and v.op == "load" and pool_field(v) == "num_workers" for v in sl)
+            dep_args = [v.idx for v in sl if v.is_arg]
+            res.append((s, dep_field, dep_args))
+        return res
+    for f in fns:
+        for (s, dep_field, dep_args) in loop_info(f):
+            if dep_field and s.insts:
+                out.setdefault(f, []).append(s.insts[0])
+            elif dep_args:
+                helpers[f] = dep_args[0]
+    for f in fns:
+        for c in f.calls():
+            g = unit.functions.get(c.callee or "")
+            if g in helpers and helpers[g] < len(c.ops):
+                a = c.ops[helpers[g]]
+                if any(v.is_inst and v.op == "load" and pool_field(v) == "num_workers" for v in backward_slice(a)):
+                    out.setdefault(f, []).append(c)
     return out
+
+
+def after_join(f, jp, inst):
+    return any(j is not inst and f.inst_dominates(j, inst) for j in jp.get(f, []))
+
+
+def shutdown_wakes(chk, lf, unit, prog, destroy_fns, worker_waits):
+    """L10: before the destroy path joins the workers it sets the shutdown flag and broadcasts every condition
+    variable a worker may be waiting on, on *every* path (a worker idle in the queue wait is otherwise never
+    told to leave and pthread_join never returns)"""
+    memo = {}
+
+    def is_signal(i, cv):
+        return i.op == "call" and norm_callee(i.callee) in ("pthread_cond_broadcast", "pthread_cond_signal") and \
+            lf.cond_name(i.ops[0]) == cv and lf.point_state.get(i) == H
+
+    def summary(g, s_in, cv, depth=0):
+        key = (g, s_in, cv)
+        if key in memo:
+            return memo[key]
+        memo[key] = (None, {s_in})
+        ins = {g.blocks[0]: s_in}
+        work = [g.blocks[0]]
+        viol = None
+        outs = set()
+        order = 0
+        while work and order < 2000:
+            order += 1
+            b = work.pop(0)
+            cur = ins[b]
+            for i in b.insts:
+                if is_signal(i, cv):
+                    cur = True
+                elif i.op == "call" and norm_callee(i.callee) == "pthread_join":
+                    if not cur and viol is None:
+                        viol = i
+                elif i.op == "call":
+                    h = unit.functions.get(i.callee or "")
+                    if h is not None and not h.decl and depth < 4:
+                        v2, o2 = summary(h.build(), cur, cv, depth + 1)
+                        if v2 is not None and viol is None:
+                            viol = v2
+                        cur = all(o2) if o2 else cur
+                elif i.op == "ret":
+                    outs.add(cur)
+            for sx in b.succs:
+                nv = cur if sx not in ins else (ins[sx] and cur)
+                if sx not in ins or nv != ins[sx]:
+                    ins[sx] = nv
+                    if sx not in work:
+                        work.append(sx)
+        memo[key] = (viol, outs)
+        return memo[key]
+    for d in destroy_fns:
+        for cv in sorted(worker_waits):
+            viol, outs = summary(d, False, cv)
+            inst = "%s:%s" % (d.name, cv)
+            joins = any(c for f in lf.fns for c in f.calls("pthread_join"))
+            if viol is None and joins:
+                chk.ok("L10", inst, d, "every path to pthread_join first broadcasts %s with the mutex held" % cv)
+            else:
+                chk.violation("L10", inst, viol or d, "a path of the shutdown sequence reaches pthread_join without a broadcast "
+                              "on %s: a worker waiting there is never woken and the join (hence destroy) never returns" % cv)
 
 
 def pre_create_blocks(ctor):
